@@ -273,3 +273,69 @@ def executed(stmts, env, unknown=None, evaluator=None):
     for s in stmts:
         go(s, [])
     return out
+
+
+# ------------------------------------------------------------------------------------------------
+# path condition of a node in structural form (if/else chains and switch arms give the same atoms)
+
+def path_atoms(node):
+    """Conditions under which `node` is reached, as a list of atoms:
+      ('eq', key, value, True/False)   key compared with a constant (from `key == c`, `c == key`, or a case label of switch(key))
+      ('true', key, True/False)        key (a boolean / pointer) tested for truth
+      ('other', text, True/False)      anything else (text of the condition)
+    gathered from the enclosing if statements (conjunctions split; a negated branch of a conjunction is kept whole as
+    'other') and the enclosing case labels. An `else` after `if (a) .. else if (b)` contributes the negations of a and b."""
+    from .flow import lvalue_key, _strip_casts
+    out = []
+
+    def atoms_of(c, pol):
+        c = _strip_casts(c)
+        if c is None:
+            return
+        if c.k == 'BinaryOperator' and c.op == '&&' and pol:
+            atoms_of(c.child('lhs'), True)
+            atoms_of(c.child('rhs'), True)
+            return
+        if c.k == 'BinaryOperator' and c.op == '||' and not pol:
+            atoms_of(c.child('lhs'), False)
+            atoms_of(c.child('rhs'), False)
+            return
+        if c.k == 'UnaryOperator' and c.op == '!':
+            atoms_of(c.child('sub'), not pol)
+            return
+        if c.k == 'BinaryOperator' and c.op in ('==', '!='):
+            l, r = _strip_casts(c.child('lhs')), _strip_casts(c.child('rhs'))
+            for a, b in ((l, r), (r, l)):
+                if b is not None and b.cv is not None and lvalue_key(a) is not None and not (a.k == 'DeclRefExpr' and a.dk == 'enum'):
+                    out.append(('eq', lvalue_key(a), b.cv, pol == (c.op == '==')))
+                    return
+        k = lvalue_key(c)
+        if k is not None and c.k in ('DeclRefExpr', 'MemberExpr'):
+            out.append(('true', k, pol))
+            return
+        out.append(('other', ' '.join(c.text().split()), pol))
+    x, prev = node.parent, node
+    while x is not None:
+        if x.k == 'IfStmt':
+            if prev is x.child('then'):
+                atoms_of(x.child('cond'), True)
+            elif prev is x.child('else'):
+                atoms_of(x.child('cond'), False)
+        elif x.k == 'CaseStmt' and prev is x.child('sub'):
+            sw = next((a for a in x.ancestors() if a.k == 'SwitchStmt'), None)
+            if sw is not None and x.child('lhs') is not None:
+                out.append(('eq', lvalue_key(_strip_casts(sw.child('cond'))), x.child('lhs').cv, True))
+        elif x.k == 'CompoundStmt' and x.parent is not None and x.parent.k == 'SwitchStmt':
+            # statement list of a switch body: the governing label is the nearest preceding case in the list
+            lab = None
+            for c in x.c:
+                if c is None:
+                    continue
+                if c.k in ('CaseStmt', 'DefaultStmt'):
+                    lab = c
+                if c is prev:
+                    break
+            if lab is not None and lab is not prev and lab.k == 'CaseStmt' and lab.child('lhs') is not None:
+                out.append(('eq', lvalue_key(_strip_casts(x.parent.child('cond'))), lab.child('lhs').cv, True))
+        prev, x = x, x.parent
+    return out
